@@ -12,15 +12,15 @@
 EXTENDS Naturals, Sequences, TLC, Json, IOUtils
 
 Rec == ndJsonDeserialize(IOEnv.TRACE)
-NT  == IF Len(Rec) = 0 THEN 0 ELSE Rec[1].nt      \* first line: [ev |-> "Header", nt |-> number of tasks]
+NT  == IF Len(Rec) = 0 THEN 0 ELSE Rec[1].ntmax   \* every statement starts with a Header line (nt tasks)
 
-VARIABLES l, st, inExec, lastRes, ended
-vars == <<l, st, inExec, lastRes, ended>>
+VARIABLES l, st, inExec, lastRes, ended, failed
+vars == <<l, st, inExec, lastRes, ended, failed>>
 
 B(x) == IF x THEN 1 ELSE 0
 S0 == <<0, 0, 0, 0>>
 
-TInit == /\ l = 2
+TInit == /\ l = 1 /\ failed = {}
          /\ st = [t \in 1..NT |-> S0]
          /\ inExec = [t \in 1..NT |-> FALSE]
          /\ lastRes = [t \in 1..NT |-> "none"]
@@ -43,11 +43,24 @@ PostModel(s, r) ==
 Mismatch(e, what, exp) ==
   PrintT(ToJson([mismatch |-> l, ev |-> e.ev, t |-> e.t, what |-> what, expected |-> exp, logged |-> e.st]))
 
+Quiescent ==
+  \A t \in 1..NT :
+     IF (st[t][3] = 1 \/ st[t][4] = 1 \/ t \in failed) \/ (st[t][1] = 0 /\ st[t][2] = 0 /\ ~inExec[t]) THEN TRUE
+     ELSE PrintT(ToJson([mismatch |-> l, ev |-> "End", t |-> t, what |-> "not-quiescent",
+                         expected |-> <<>>, logged |-> st[t]]))
+
 Step ==
   /\ l <= Len(Rec)
   /\ l' = l + 1
   /\ LET e == Rec[l] t == e.t IN
-     CASE e.ev = "TaskSchedule" ->
+     IF e.ev = "Header" THEN
+        /\ Quiescent
+        /\ st' = [x \in 1..NT |-> S0] /\ inExec' = [x \in 1..NT |-> FALSE]
+        /\ lastRes' = [x \in 1..NT |-> "none"] /\ ended' = [x \in 1..NT |-> FALSE]
+        /\ failed' = {e.failed[i] : i \in DOMAIN e.failed}
+     ELSE
+     /\ UNCHANGED failed
+     /\ CASE e.ev = "TaskSchedule" ->
             LET m == SchedModel(st[t]) IN
             /\ IF m[1] = e.branch /\ m[2] = e.st THEN TRUE ELSE Mismatch(e, "schedule", m)
             /\ st' = [st EXCEPT ![t] = e.st]
@@ -74,17 +87,13 @@ Step ==
             /\ UNCHANGED <<inExec, lastRes, ended>>
        [] OTHER -> UNCHANGED <<st, inExec, lastRes, ended>>
 
-(* at the end of the trace: nothing is left unserved *)
 Final ==
   /\ l = Len(Rec) + 1
   /\ l' = l + 1
-  /\ \A t \in 1..NT :
-        IF (st[t][3] = 1 \/ st[t][4] = 1 \/ Rec[1].failed) \/ (st[t][1] = 0 /\ st[t][2] = 0 /\ ~inExec[t]) THEN TRUE
-        ELSE PrintT(ToJson([mismatch |-> l, ev |-> "End", t |-> t, what |-> "not-quiescent",
-                            expected |-> <<>>, logged |-> st[t]]))
-  /\ UNCHANGED <<st, inExec, lastRes, ended>>
+  /\ Quiescent
+  /\ UNCHANGED <<st, inExec, lastRes, ended, failed>>
 
 TNext == Step \/ Final
 TSpec == TInit /\ [][TNext]_vars
-Accepted == TLCGet("stats").diameter = Len(Rec) + 1
+Accepted == TLCGet("stats").diameter = Len(Rec) + 2
 =============================================================================
